@@ -31,12 +31,19 @@ def prog_cat(exit_variant=False):
     return p
 
 
-def prog_cat_cushion(nz=2):
-    # the same loop, but every character is READ by a multi-operand addition over a cushion of own zeroes that the
-    # program keeps on top of stack 0 (0 + 0 + c, sent back to stack 0): the read happens in the middle of one command,
-    # below values the program pushed itself
+def prog_cat_cushion(nz=2, kind='add'):
+    # the same loop, but every character is READ by a multi-operand command over a cushion of own values that the
+    # program keeps on top of stack 0: the read happens in the middle of one command, below values the program pushed itself
+    #   add: 0 + 0 + c sent back to stack 0;  mul: 1 * 1 * c sent back to stack 0;
+    #   neg: push 0, negate the top two values (0 and c) twice (the sums go to a junk stack), move the 0 away
     p = prog_cat(False)
-    return p[:2] + [(0, 1, 0, None)] * nz + [(1, nz + 1, 0, None)] + p[2:]
+    if kind == 'add':
+        fetch = [(0, 1, 0, None)] * nz + [(1, nz + 1, 0, None)]
+    elif kind == 'mul':
+        fetch = [(0, 1, 1, None)] * nz + [(2, nz + 1, 0, None)]
+    else:
+        fetch = [(0, 1, 0, None), (3, 2, 5, None), (3, 2, 5, None), (1, 1, 4, None)]
+    return p[:2] + fetch + p[2:]
 
 
 def prog_reverse_k(k, m):
@@ -67,6 +74,8 @@ for _k in (0, 1, 2, 3, 7, 20, 64, 300):
 PROGRAMS.append(('cat', prog_cat(False), lambda t: expect_cat(t, False), 0))
 PROGRAMS.append(('cat_exit', prog_cat(True), lambda t: expect_cat(t, True), 0))
 PROGRAMS.append(('cat_cushion', prog_cat_cushion(2), lambda t: expect_cat(t, False), 0))
+PROGRAMS.append(('cat_cushion_mul', prog_cat_cushion(2, 'mul'), lambda t: expect_cat(t, False), 0))
+PROGRAMS.append(('cat_cushion_neg', prog_cat_cushion(1, 'neg'), lambda t: expect_cat(t, False), 0))
 for _k, _m in ((1, 2), (2, 0), (5, 7), (17, 40)):
     PROGRAMS.append(('reverse_%d_%d' % (_k, _m), prog_reverse_k(_k, _m), lambda t, k=_k, m=_m: expect_reverse(k, m, t), _k + 1))
 
@@ -160,7 +169,9 @@ def _case(i):
     cands = [p for p in PROGRAMS if len(text) >= p[3]]
     progs = rng.sample(cands, min(len(cands), 2 if len(text) > 2000 else 3))
     if kind in ('long_multibyte_line', 'long_line', 'aligned_long_line'):
-        progs = [p for p in PROGRAMS if p[0] == rng.choice(['cat', 'cat_exit', 'cat_cushion'])]
+        # (the cushion variants cost three times as much per character: only on the shorter of the long texts)
+        pick = rng.choice(['cat', 'cat_exit'] + (['cat_cushion', 'cat_cushion_mul', 'cat_cushion_neg'] if len(text) <= 12000 else []))
+        progs = [p for p in PROGRAMS if p[0] == pick]
     for name, prog, fexp, _ in progs:
         want = fexp(text)
         d = os.path.join(_RUN['dir'], name)
